@@ -6,10 +6,11 @@
   functions against the implementation; `Spec/C01.lean` holds the run-time judge.
 -/
 import Upnp.Lemmas.C01Wire
+import Upnp.Lemmas.C01Dict
 import Upnp.Lemmas.C01Lru
 import Upnp.Gen.C01Ssdp
 namespace Upnp.C01
-open Upnp
+open Upnp CIDict
 
 /-! ### the generated tables are the ones the model is about -/
 
@@ -83,6 +84,83 @@ theorem decode_build_wire (sep : Bytes) (hsep : SepOk sep) (sl : Bytes) (hsl : s
   have hok : startLineOk sl = true := List.all_eq_true.mp start_lines_ok sl hsl
   unfold decode decodeCore
   rw [headerParse_build sep hsep sl hok hs (wfHeaders_spec hwf).1]
+
+/-- What a user sees of the header map decoded from a message built from `hs`, sent by `src`:
+    every look-up is by an ARBITRARY spelling `k` of the name. -/
+structure RoundTrip (hs : List (Bytes × Bytes)) (src : Addr) (h : Hdrs) : Prop where
+  /-- every sent header other than `location` has the sent value -/
+  sent : ∀ p ∈ hs, lower p.1 ≠ kLocation → ∀ k, lower k = lower p.1 → getitem lower h k = some (.str p.2)
+  /-- `location`: blank text is kept; otherwise the link-local adjustment of the sent URL for this
+      source (the identity unless the source is a scoped IPv6 address, `adjust_identity`), and the
+      sent text is kept under `_location_original` -/
+  locBlank : ∀ p ∈ hs, lower p.1 = kLocation → allPyWs p.2 = true →
+      ∀ k, lower k = kLocation → getitem lower h k = some (.str p.2)
+  locAdjusted : ∀ p ∈ hs, lower p.1 = kLocation → allPyWs p.2 = false →
+      (∀ k, lower k = kLocation → getitem lower h k = some (adjVal p.2 src))
+      ∧ (∀ k, lower k = kLocOrig → getitem lower h k = some (.str p.2))
+  /-- sender metadata derived from the datagram's source address -/
+  host : ∀ k, lower k = kHost → getitem lower h k = some (.str (hostString src))
+  port : ∀ k, lower k = kPort → getitem lower h k = some (.int src.port)
+  remote : ∀ k, lower k = kRemote → getitem lower h k = some (.addr src)
+  /-- the UDN taken from a uuid USN (absent otherwise) -/
+  udn : ∀ k, lower k = kUdn → getitem lower h k = (udnOf hs).map Val.str
+  /-- the names are exactly the sent names (ignoring case) plus metadata names, each once -/
+  namesSub : ∀ n ∈ iter h, lower n ∈ hs.map (fun p => lower p.1) ∨ lower n ∈ Gen.C01Ssdp.metaKeys
+  namesSup : ∀ p ∈ hs, ∃ n ∈ iter h, lower n = lower p.1
+  namesNodup : ((iter h).map lower).Nodup
+
+/-- the names the model reserves for metadata are the `LOWER_*` constants of the source -/
+theorem meta_keys_pinned :
+    Gen.C01Ssdp.metaKeys = [kTimestamp, kHost, kPort, kLocal, kRemote, kUdn, kLocOrig, kLocation] := by decide
+
+theorem notReserved_of {x : Bytes} (h : reserved Gen.C01Ssdp.metaKeys x = false) : NotReserved x := by
+  rw [meta_keys_pinned] at h
+  have hne : kHost ≠ kLocation ∧ kUdn ≠ kLocation ∧ kLocOrig ≠ kLocation ∧ kTimestamp ≠ kLocation
+      ∧ kRemote ≠ kLocation ∧ kPort ≠ kLocation ∧ kLocal ≠ kLocation := by decide
+  obtain ⟨a, b, c, d, e, f, g⟩ := hne
+  refine ⟨?_, ?_, ?_, ?_, ?_, ?_, ?_⟩ <;> (intro hx; subst hx; simp [reserved, *] at h)
+
+/-- **C01, first sentence.**  For every start line among the three SSDP kinds, every header list
+    of ANY length whose names are tokens, pairwise distinct ignoring case and not metadata keys, and
+    whose values contain no CR/LF/NUL, have no surrounding blanks and are at most 8190 bytes long,
+    every source address (IPv4, IPv6, scoped IPv6), local address and clock value: the library's
+    decoder applied to what the library's builder produced returns the same start line and a header
+    map in which every sent name, looked up by any spelling, has the sent value (`location`: see
+    `RoundTrip.locAdjusted`), together with `_host`, `_port`, `_remote_addr` of the source and the
+    `_udn` of a uuid USN, and no other names than the sent ones and metadata. -/
+theorem decode_build (sep : Bytes) (hsep : SepOk sep) (sl : Bytes) (hsl : sl ∈ Gen.C01Ssdp.ssdpPrefixes)
+    (hs : List (Bytes × Bytes)) (hwf : wfHeaders Gen.C01Ssdp.metaKeys hs = true)
+    (loc : Option Addr) (src : Addr) (now : Int) :
+    ∃ h, decode (build sep sl hs) loc src now = .ok (sl, h) ∧ RoundTrip hs src h := by
+  obtain ⟨_, hres, hd⟩ := wfHeaders_spec hwf
+  have hr : ∀ p ∈ hs, NotReserved (lower p.1) := fun p hp => notReserved_of (hres p hp)
+  refine ⟨decoded hs loc src now, ?_, ?_⟩
+  · rw [decode_build_wire sep hsep sl hsl hs hwf]
+    unfold headersOf decoded mergedOf
+    rw [mdToDict_wf hd]
+  · exact
+    { sent := fun p hp hl k hk => decoded_sent hd hr loc src now hp hl k hk
+      locBlank := fun p hp hl hw k hk => decoded_location_blank hd hr loc src now hp hl hw k hk
+      locAdjusted := fun p hp hl hw => decoded_location hd hr loc src now hp hl hw
+      host := fun k hk => decoded_host hd hr loc src now k hk
+      port := fun k hk => decoded_port hd loc src now k hk
+      remote := fun k hk => decoded_remote hd loc src now k hk
+      udn := fun k hk => decoded_udn hd hr loc src now k hk
+      namesSub := fun n hn => by
+        rcases decoded_names_sub hd loc src now hn with h | h
+        · exact Or.inl h
+        · right; rw [meta_keys_pinned]
+          simp only [List.mem_cons, List.not_mem_nil, or_false] at h ⊢
+          rcases h with e | e | e | e | e | e | e | e <;> simp [e]
+      namesSup := fun p hp => decoded_names_sup hd hr loc src now hp
+      namesNodup := decoded_names_nodup hd loc src now }
+
+/-- the built `M-SEARCH` of `build_ssdp_search_packet` is an instance (its four names are distinct
+    tokens; `decode_build` applies whenever target, MX and ST texts are well-formed values) -/
+theorem search_names_wf :
+    distinctCI Gen.C01Ssdp.searchHeaderNames = true
+    ∧ Gen.C01Ssdp.searchHeaderNames.all (fun k => isToken k && !reserved Gen.C01Ssdp.metaKeys (lower k)) = true := by
+  decide
 
 /-- the cached part of the decoder never sees the port: two sources that differ only in the port
     share it, and the results differ exactly in the per-call metadata -/
